@@ -40,6 +40,8 @@ def run(ctx):
     ctx.do(rule_no_hidden_state, "C14.history-independence")
     from .pitfalls import rule_loops_not_cut_short
     ctx.do(rule_loops_not_cut_short, "C14.loops-complete")
+    from .pitfalls import rule_definite_assignment
+    ctx.do(rule_definite_assignment, "C14.definite-assignment")
 
 
 def iter_exact_calls(prog, cg, include_cha_unique=False):
